@@ -284,3 +284,67 @@ pub fn replace_at(t: &T, path: &[usize], new: T) -> T {
     c.kids[path[0]] = replace_at(&t.kids[path[0]], &path[1..], new);
     c
 }
+
+/// Parse a dump (format of `ast::dump_str`) back into a `T`; used to replay a recorded case.
+pub fn parse_dump(w: &World, tap: bool, tok: &[&str], pos: &mut usize) -> Option<T> {
+    let name = *tok.get(*pos)?;
+    *pos += 1;
+    let all = [
+        Tg::True, Tg::False, Tg::PkK, Tg::PkH, Tg::RawPkH, Tg::After, Tg::Older, Tg::Sha256, Tg::Hash256, Tg::Ripemd160,
+        Tg::Hash160, Tg::Alt, Tg::Swap, Tg::Check, Tg::DupIf, Tg::Verify, Tg::NonZero, Tg::ZeroNotEqual, Tg::AndV, Tg::AndB,
+        Tg::AndOr, Tg::OrB, Tg::OrD, Tg::OrC, Tg::OrI, Tg::Thresh, Tg::Multi, Tg::SortedMulti, Tg::MultiA, Tg::SortedMultiA,
+    ];
+    let tg = *all.iter().find(|t| t.name() == name)?;
+    let mut next = |pos: &mut usize| -> Option<&str> {
+        let t = *tok.get(*pos)?;
+        *pos += 1;
+        Some(t)
+    };
+    let pre = |f: &dyn Fn(usize) -> Vec<u8>, h: &str| -> Option<u32> { (0..N_PRE).find(|&j| hex(&f(j)) == h).map(|j| j as u32) };
+    match tg {
+        Tg::True | Tg::False => Some(T::leaf(tg, 0)),
+        Tg::PkK | Tg::PkH => Some(T::leaf(tg, next(pos)?.parse().ok()?)),
+        Tg::RawPkH => {
+            let h = next(pos)?;
+            let i = (0..crate::ast::N_KEYS).find(|&i| hex(raw_pkh(w, i, tap).as_byte_array()) == h)?;
+            Some(T::leaf(tg, i as u32))
+        }
+        Tg::After | Tg::Older => Some(T::leaf(tg, next(pos)?.parse().ok()?)),
+        Tg::Sha256 => Some(T::leaf(tg, pre(&|j| w.sha256_img(j).as_byte_array().to_vec(), next(pos)?)?)),
+        Tg::Hash256 => Some(T::leaf(tg, pre(&|j| w.hash256_img(j).as_byte_array().to_vec(), next(pos)?)?)),
+        Tg::Ripemd160 => Some(T::leaf(tg, pre(&|j| w.ripemd160_img(j).as_byte_array().to_vec(), next(pos)?)?)),
+        Tg::Hash160 => Some(T::leaf(tg, pre(&|j| w.hash160_img(j).as_byte_array().to_vec(), next(pos)?)?)),
+        Tg::Alt | Tg::Swap | Tg::Check | Tg::DupIf | Tg::Verify | Tg::NonZero | Tg::ZeroNotEqual => {
+            Some(T::un(tg, parse_dump(w, tap, tok, pos)?))
+        }
+        Tg::AndV | Tg::AndB | Tg::OrB | Tg::OrD | Tg::OrC | Tg::OrI => {
+            let x = parse_dump(w, tap, tok, pos)?;
+            let y = parse_dump(w, tap, tok, pos)?;
+            Some(T::bin(tg, x, y))
+        }
+        Tg::AndOr => {
+            let a = parse_dump(w, tap, tok, pos)?;
+            let b = parse_dump(w, tap, tok, pos)?;
+            let c = parse_dump(w, tap, tok, pos)?;
+            Some(T { tg, num: 0, keys: vec![], kids: vec![a, b, c] })
+        }
+        Tg::Thresh => {
+            let k: u32 = next(pos)?.parse().ok()?;
+            let n: usize = next(pos)?.parse().ok()?;
+            let mut kids = Vec::new();
+            for _ in 0..n {
+                kids.push(parse_dump(w, tap, tok, pos)?);
+            }
+            Some(T { tg, num: k, keys: vec![], kids })
+        }
+        Tg::Multi | Tg::SortedMulti | Tg::MultiA | Tg::SortedMultiA => {
+            let k: u32 = next(pos)?.parse().ok()?;
+            let n: usize = next(pos)?.parse().ok()?;
+            let mut keys = Vec::new();
+            for _ in 0..n {
+                keys.push(next(pos)?.parse().ok()?);
+            }
+            Some(T { tg, num: k, keys, kids: vec![] })
+        }
+    }
+}
